@@ -4,7 +4,7 @@ CONSTANTS
   Names = {}
   PlanIds = {}
   MaxRaise = 1
-  DeliverAlls = {FALSE, TRUE}
+  DeliverAlls = {FALSE}
 SPECIFICATION Spec
 INVARIANT TypeOK
 INVARIANT C19_OnceInOrder
